@@ -8,7 +8,9 @@ independent eligibility checker (own rung bookkeeping, numpy.quantile) is run on
 suggestion / decision — that checker is what yields `property` violations."""
 import contextlib
 import datetime
+import glob
 import io
+import json
 import os
 import logging
 import re
@@ -17,14 +19,15 @@ from unittest import mock
 
 import numpy as np
 
-from common import q, lst, natlit, zlit, blit, optlit
+from common import q, lst, natlit, zlit, blit, optlit, VERIF
 
-IMPORTS = "From Verif Require Import model.Base model.Promotion proofs.PromotionProofs.\nOpen Scope Q_scope.\n"
+IMPORTS = "From Verif Require Import model.Base model.Promotion proofs.PromotionProofs.\nFrom Coq Require Import Qabs.\nOpen Scope Q_scope.\n"
 
 PRELUDE = r"""
 Inductive obs :=
 | ObsStart (t : Z) (mra : option Z) | ObsResume (t : Z) (mra : option Z) | ObsNone
-| ObsDec (d : decision) | ObsUnit | ObsErr (cls : nat).
+| ObsDec (d : decision) | ObsUnit | ObsErr (cls : nat)
+| ObsDecE (d : decision) (eps_after : Q) (dists : list Q).   (* PASHA report: self.epsilon afterwards, noisy_cfg_distances *)
 Definition snap := (list (Z * nat * Q * Z) * list (Z * nat))%type.
 Definition err_class (e : err) : nat :=
   match e with EKey => 0 | EIndex => 2 | _ => 1 end%nat.
@@ -35,6 +38,7 @@ Definition out_matches (o : output) (ob : obs) : bool :=
   | OResume t m _ _ _ _, ObsResume t' m' => Z.eqb t t' && optZ_eqb m m'
   | ONoSuggestion, ObsNone => true
   | ODecision d, ObsDec d' => decision_eqb d d'
+  | ODecision d, ObsDecE d' _ _ => decision_eqb d d'
   | OUnit, ObsUnit => true
   | _, _ => false
   end.
@@ -47,32 +51,88 @@ Definition snap_ok (st : state) (sn : option snap) : bool :=
   | None => true
   | Some (p, i) => list_eqb paused_eqb (paused_trials st) p && list_eqb info_eqb (information_for_rungs st) i
   end.
-Definition set_b (ev : event) (b : bool) : event :=
+(* PASHA: rung system of trial t before the step; the model's noisy_cfg_distances for this report and its
+   epsilon afterwards must be what the implementation computed (distances: float subtraction, compared
+   within relative 1e-12) *)
+Definition sys_index (cfg : config) (st : state) (t : Z) : option nat :=
+  match lookup t (st_task st) with Some br => Some (fst (sys_of cfg br)) | None => None end.
+Definition approx_eqb (a b : Q) : bool := Qleb (Qabs (a - b)) ((1 # 1000000000000) * (Qabs a + Qabs b)).
+Definition model_dists (cfg : config) (st : state) (ev : event) : option (list Q) :=
+  match ev with
+  | Report t r m c orc =>
+      match sys_index cfg st t with
+      | Some sid =>
+          match nth_error (st_sys st) sid with
+          | Some rs =>
+              match promo_on_task_report cfg rs t r m c with
+              | Ok (rs1, _) =>
+                  match noisy_distances (set_hist rs1 (add_result (rs_hist rs1) t r m)) orc with
+                  | Some (Ok d) => Some d
+                  | _ => None
+                  end
+              | Err _ => None
+              end
+          | None => None
+          end
+      | None => None
+      end
+  | _ => None
+  end.
+Definition eps_ok (cfg : config) (st st' : state) (ev : event) (ob : obs) : bool :=
+  match ob, ev with
+  | ObsDecE _ e ds, Report t _ _ _ _ =>
+      match sys_index cfg st t with
+      | Some sid =>
+          match nth_error (st_sys st') sid with
+          | Some rs' => Qeqb (h_eps (rs_hist rs')) e
+          | None => false
+          end &&
+          match model_dists cfg st ev with
+          | Some d => list_eqb approx_eqb d ds
+          | None => match ds with [] => true | _ => false end
+          end
+      | None => false
+      end
+  | _, _ => true
+  end.
+Definition set_b (ev : event) (b : bres) : event :=
   match ev with Suggest n br _ g => Suggest n br b g | _ => ev end.
 Definition try_step (cfg : config) (st : state) (ev : event) (ob : obs) (sn : option snap) : bool * option state :=
   match step cfg st ev with
   | Err e => (match ob with ObsErr c => Nat.eqb c (err_class e) | _ => false end, None)
-  | Ok (st', o) => (out_matches o ob && snap_ok st' sn, Some st')
+  | Ok (st', o) => (out_matches o ob && snap_ok st' sn && eps_ok cfg st st' ev ob, Some st')
   end.
-(* Boundary comparisons of a suggest may go either way: accept the resolution that reproduces the
-   implementation's answer *)
+(* Boundary comparisons of a suggest may go either way, independently per rung level: all resolutions
+   (all-in-favour-of-promotion first) *)
+Fixpoint all_bres (levels : list Z) : list bres :=
+  match levels with
+  | [] => [[]]
+  | l :: r => let rest := all_bres r in map (cons (l, true)) rest ++ map (cons (l, false)) rest
+  end.
+Fixpoint first_match (cfg : config) (st : state) (ev : event) (ob : obs) (sn : option snap) (cands : list bres)
+  : option (event * option state) :=
+  match cands with
+  | [] => None
+  | b :: rest =>
+      match try_step cfg st (set_b ev b) ob sn with
+      | (true, st') => Some (set_b ev b, st')
+      | (false, _) => first_match cfg st ev ob sn rest
+      end
+  end.
+(* the event with the resolution that reproduces the implementation's answer, and the next state *)
+Definition pick (cfg : config) (st : state) (ev : event) (ob : obs) (sn : option snap) : option (event * option state) :=
+  match ev with
+  | Suggest _ _ _ _ => first_match cfg st ev ob sn (all_bres (c_levels cfg))
+  | _ => first_match cfg st ev ob sn [[]]
+  end.
 Fixpoint chk_run (cfg : config) (st : state) (evs : list (event * obs * option snap)) : bool :=
   match evs with
   | [] => true
   | (ev, ob, sn) :: rest =>
-      match try_step cfg st (set_b ev true) ob sn with
-      | (true, Some st') => chk_run cfg st' rest
-      | (true, None) => true
-      | (false, _) =>
-          match ev with
-          | Suggest _ _ _ _ =>
-              match try_step cfg st (set_b ev false) ob sn with
-              | (true, Some st') => chk_run cfg st' rest
-              | (true, None) => true
-              | (false, _) => false
-              end
-          | _ => false
-          end
+      match pick cfg st ev ob sn with
+      | Some (_, Some st') => chk_run cfg st' rest
+      | Some (_, None) => true
+      | None => false
       end
   end.
 Definition seq_case := (config * list (event * obs * option snap))%type.
@@ -84,14 +144,10 @@ Fixpoint resolve (cfg : config) (st : state) (evs : list (event * obs * option s
   match evs with
   | [] => []
   | (ev, ob, sn) :: rest =>
-      match try_step cfg st (set_b ev true) ob sn with
-      | (true, Some st') => set_b ev true :: resolve cfg st' rest
-      | (true, None) => [set_b ev true]
-      | (false, _) =>
-          match try_step cfg st (set_b ev false) ob sn with
-          | (true, Some st') => set_b ev false :: resolve cfg st' rest
-          | (_, _) => [set_b ev false]
-          end
+      match pick cfg st ev ob sn with
+      | Some (ev', Some st') => ev' :: resolve cfg st' rest
+      | Some (ev', None) => [ev']
+      | None => [ev]
       end
   end.
 Definition hyp_case := (bool * seq_case)%type.
@@ -105,18 +161,13 @@ Fixpoint diag_run (cfg : config) (st : state) (evs : list (event * obs * option 
   match evs with
   | [] => None
   | (ev, ob, sn) :: rest =>
-      let show b := match step cfg st (set_b ev b) with
-                    | Err e => Err e
-                    | Ok (st', o) => Ok (o, paused_trials st', information_for_rungs st') end in
-      match try_step cfg st (set_b ev true) ob sn with
-      | (true, Some st') => diag_run cfg st' rest (i + 1)%Z
-      | (true, None) => None
-      | (false, _) =>
-          match try_step cfg st (set_b ev false) ob sn with
-          | (true, Some st') => diag_run cfg st' rest (i + 1)%Z
-          | (true, None) => None
-          | (false, _) => Some (i, show true)
-          end
+      match pick cfg st ev ob sn with
+      | Some (_, Some st') => diag_run cfg st' rest (i + 1)%Z
+      | Some (_, None) => None
+      | None =>
+          Some (i, match step cfg st ev with
+                   | Err e => Err e
+                   | Ok (st', o) => Ok (o, paused_trials st', information_for_rungs st') end)
       end
   end.
 Definition diag_seq (c : seq_case) := diag_run (fst c) (init (fst c)) (snd c) 0%Z.
@@ -171,9 +222,11 @@ def gen_spec(rng, force_type=None):
     spec["brackets"] = rng.choice([1, 1, 2, 3])
     spec["per_bracket"] = rng.random() < 0.3
     if typ == "pasha":
-        # PASHA with several brackets / a single rung level raises IndexError (reported separately):
-        # keep a minority of such cases to check that the model raises the same error class
-        if rng.random() < 0.85:
+        # PASHA with several brackets (any number of rung levels) is a legal configuration and is generated
+        # like the others; half of the PASHA cases are pinned to one bracket so that long single-bracket
+        # runs (rankings, cap increases) stay well covered (finding F-C04-1 ends multi-bracket runs early
+        # on an unrepaired tree)
+        if rng.random() < 0.5:
             spec["brackets"] = 1
     spec["mra"] = rng.random() < 0.5
     spec["cost_attr"] = typ == "cost_promotion" or rng.random() < 0.25
@@ -233,6 +286,7 @@ class Checker:
         self.boundary = 0
         self.violations = []
         self.caps_seen = {}
+        self.oracle_mismatch = []
 
     def bad(self, check, what, **extra):
         self.violations.append(dict(check=check, what=what, **extra))
@@ -452,6 +506,50 @@ class Checker:
 # ------------------------------------------------------------------------------------------------
 # running one spec against the real scheduler
 # ------------------------------------------------------------------------------------------------
+def pasha_distances(inst, idx_before):
+    """harness-side recomputation of noisy_cfg_distances of PASHARungSystem._update_epsilon from the public
+    attributes of the rung system (rung_levels, current_max_epoch, epoch_to_trials, per_epoch_results), with
+    the rung index in force during the call. Returns (orders, distances, error) where orders lists, for every
+    epoch of the scanned range holding >= 2 trials, the iteration order of the set epoch_to_trials[epoch]."""
+    import itertools
+    desc = list(reversed(inst.rung_levels))  # = levels of self._rungs
+
+    def level_at(pos):
+        n = len(desc)
+        return desc[pos] if -n <= pos < n else None
+
+    top, prev = level_at(-idx_before), level_at(-idx_before + 1)
+    if top is None or prev is None:
+        return [], [], None
+    top_epoch = min(inst.current_max_epoch, top)
+    bottom_epoch = min(prev, inst.current_max_epoch)
+    orders, dists, seen = [], [], set()
+    try:
+        for epoch in range(top_epoch, bottom_epoch, -1):
+            order = list(inst.epoch_to_trials[epoch])
+            if len(order) > 1:
+                orders.append((epoch, [int(t) for t in order]))
+                for c1, c2 in itertools.combinations(order, 2):
+                    if (c1, c2) in seen:
+                        continue
+                    seen.add((c1, c2))
+                    p1, p2 = inst.per_epoch_results[c1][epoch], inst.per_epoch_results[c2][epoch]
+                    cond = p1 > p2
+                    opposite = again = False
+                    for pe in range(epoch - 1, 0, -1):
+                        pc = inst.per_epoch_results[c1][pe] > inst.per_epoch_results[c2][pe]
+                        if pc == (not cond):
+                            opposite = True
+                        if opposite and pc == cond:
+                            again = True
+                            break
+                    if opposite and again:
+                        dists.append(abs(p1 - p2))
+    except KeyError as e:
+        return orders, dists, e
+    return orders, [float(d) for d in dists], None
+
+
 def exc_class(e):
     return 0 if isinstance(e, KeyError) else 1 if isinstance(e, AssertionError) else 2 if isinstance(e, IndexError) else 3
 
@@ -476,10 +574,11 @@ def run_spec(spec, strict=False, max_trials=None):
             instances.append(self)
 
         def on_task_report(self, trial_id, result, skip_rungs):
+            idx_before, eps_before = self.current_rung_idx, float(self.epsilon)
             try:
                 return super().on_task_report(trial_id, result, skip_rungs)
             finally:
-                self.eps_log.append(float(self.epsilon))
+                self.eps_log.append((float(self.epsilon), idx_before, eps_before))
 
     max_t = spec["max_t"]
     cs = {"x": choice(["a", "b", "c"]) if spec["tiny_space"] else uniform(0.0, 1.0)}
@@ -526,7 +625,7 @@ def run_spec(spec, strict=False, max_trials=None):
     next_id = 0
     ev_terms, ev_json = [], []
     stats = dict(resumes=0, starts=0, starts_with_paused=0, max_rung_at_resume=0, errors=0, nosugg=0, late=0,
-                 pauses=0, stops=0, ignored=0, oracle_errors=0, malformed=0)
+                 pauses=0, stops=0, ignored=0, oracle_errors=0, malformed=0, pasha_index_errors=0, pasha_reports=0, pasha_noisy=0, pasha_eps_changes=0)
     t0 = datetime.datetime(2020, 1, 1)
     step_no = [0]
 
@@ -570,25 +669,49 @@ def run_spec(spec, strict=False, max_trials=None):
             err = None
         except (KeyError, AssertionError, IndexError) as e:
             dec, err = None, e
-        eps = 0.0
-        for i, n0 in zip(instances, eps_before):
-            if len(i.eps_log) > n0:
-                eps = i.eps_log[-1]
-        ev = "Report %s %s %s %s %s" % (zlit(tid), zlit(resource), q(metric), q(cost), q(eps))
-        js = dict(op="report", trial=tid, resource=resource, metric=metric, cost=cost, eps=eps)
+        # PASHA oracles of this call: iteration order of the sets epoch_to_trials[epoch] in the epoch range of
+        # _update_epsilon, and the epsilon afterwards (= np.percentile of the distances when there are any)
+        orc_term, eps_after, dists, rec = "(mkO [] 0)", None, [], None
+        for inst, n0 in zip(instances, eps_before):
+            if len(inst.eps_log) > n0:
+                rec = inst
+        if rec is not None:
+            eps_after, idx_before, eps_prev = rec.eps_log[-1]
+            orders, dists, derr = pasha_distances(rec, idx_before)
+            orc_term = "(mkO %s %s)" % (lst(["(%s, %s)" % (zlit(ep), lst([zlit(t) for t in o])) for ep, o in orders]),
+                                        q(eps_after))
+            want = float(np.percentile(dists, 90)) if dists else eps_prev
+            if derr is None and not (want == eps_after):
+                chk.oracle_mismatch.append("epsilon after the report of trial %s at %s is %r, np.percentile(distances %r, 90) "
+                                           "(or the previous epsilon) is %r" % (tid, resource, eps_after, dists, want))
+        ev = "Report %s %s %s %s %s" % (zlit(tid), zlit(resource), q(metric), q(cost), orc_term)
+        js = dict(op="report", trial=tid, resource=resource, metric=metric, cost=cost, eps=eps_after, dists=dists)
         if err is not None:
             tb = traceback.extract_tb(err.__traceback__)
-            if tb and tb[-1].name == "_update_epsilon":
-                # the exception comes from the epsilon computation (oracle for the model; only reachable
-                # when a worker skips resource levels): the sequence ends before this event
-                stats["oracle_errors"] += 1
+            if (isinstance(err, IndexError) and spec["type"] == "pasha" and tb
+                    and tb[-1].name in ("_evaluate_soft_ranking", "_get_top_two_rungs_rankings", "_update_epsilon")):
+                # finding F-C04-1: PASHA's ranking comparison raises on a legal configuration. The model
+                # describes the repaired step, so the sequence ends before this event.
+                stats["pasha_index_errors"] += 1
+                if stats["malformed"] == 0:
+                    chk.bad("scheduler_raised",
+                            "scheduler raised IndexError in %s on a legal event sequence (trial %s reporting "
+                            "resource %s; brackets=%d, rung levels %s)" % (tb[-1].name, tid, resource, nb, levels),
+                            signature=dict(scheduler="pasha", defect="IndexError_soft_ranking",
+                                           brackets_ge_2=bool(nb >= 2), num_rung_levels=len(levels)))
                 return None
             stats["errors"] += 1
             record(ev, "(ObsErr %s)" % natlit(exc_class(err)), dict(js, error=type(err).__name__))
             return None
         last_result[tid] = result
         # total cost as the scheduler computes it is cost + offset: the checker recomputes it itself
-        record(ev, "(ObsDec %s)" % dec, dict(js, decision=dec))
+        if rec is not None:
+            stats["pasha_reports"] += 1
+            stats["pasha_noisy"] += int(bool(dists))
+            stats["pasha_eps_changes"] += int(eps_after != rec.eps_log[-1][2])
+            record(ev, "(ObsDecE %s %s %s)" % (dec, q(eps_after), lst([q(d) for d in dists])), dict(js, decision=dec))
+        else:
+            record(ev, "(ObsDec %s)" % dec, dict(js, decision=dec))
         return dec
 
     totals = {}  # harness-side cumulative cost bookkeeping: tid -> cost offset (total at the last milestone)
@@ -617,14 +740,14 @@ def run_spec(spec, strict=False, max_trials=None):
                 sug, err = None, e
             if err is not None:
                 stats["errors"] += 1
-                record("Suggest %s %s true true" % (zlit(next_id), natlit(br)), "(ObsErr %s)" % natlit(exc_class(err)),
+                record("Suggest %s %s [] true" % (zlit(next_id), natlit(br)), "(ObsErr %s)" % natlit(exc_class(err)),
                        dict(op="suggest", new_id=next_id, bracket=br, error=type(err).__name__))
                 alive = False
                 break
             if sug is None:
                 stats["nosugg"] += 1
                 chk.on_suggest(br, "none", None, None, cap, busy)
-                record("Suggest %s %s true false" % (zlit(next_id), natlit(br)), "ObsNone",
+                record("Suggest %s %s [] false" % (zlit(next_id), natlit(br)), "ObsNone",
                        dict(op="suggest", new_id=next_id, bracket=br, result="none"))
                 continue
             mra_val = sug.config.get("epochs") if (sug.config is not None and spec["mra"]) else None
@@ -637,7 +760,7 @@ def run_spec(spec, strict=False, max_trials=None):
                 stats["starts"] += 1
                 stats["starts_with_paused"] += int(had_paused)
                 chk.on_suggest(br, "start", tid, mra_val, cap, busy)
-                record("Suggest %s %s true true" % (zlit(tid), natlit(br)),
+                record("Suggest %s %s [] true" % (zlit(tid), natlit(br)),
                        "(ObsStart %s %s)" % (zlit(tid), optlit(mra_val, zlit)),
                        dict(op="suggest", new_id=tid, bracket=br, result="start", mra=mra_val))
                 sch.on_trial_add(trials[tid])
@@ -652,7 +775,7 @@ def run_spec(spec, strict=False, max_trials=None):
                 rf = info.get("resume_from")
                 if rf is not None:
                     stats["max_rung_at_resume"] = max(stats["max_rung_at_resume"], len(chk.rungs[info["sys"]].get(rf, [])))
-                record("Suggest %s %s true true" % (zlit(next_id), natlit(br)),
+                record("Suggest %s %s [] true" % (zlit(next_id), natlit(br)),
                        "(ObsResume %s %s)" % (zlit(tid), optlit(mra_val, zlit)),
                        dict(op="suggest", new_id=next_id, bracket=br, result="resume", trial=tid, mra=mra_val))
                 if tid not in trials:
@@ -822,8 +945,10 @@ def run(ctx, replay=None):
     if replay is not None:
         specs = [replay["spec"]] if "spec" in replay else []
     else:
+        corpus = [json.load(open(f))["spec"] for f in sorted(glob.glob(os.path.join(VERIF, "corpus", "C04", "*.json")))]
         n = ctx.n(260, 5000)
-        specs = [gen_spec(rng, force_type=TYPES[i % 4] if i < n // 2 else None) for i in range(n)]
+        specs = corpus + [gen_spec(rng, force_type=TYPES[i % 4] if i < n // 2 else None) for i in range(n)]
+        ctx.h("stream", "corpus", len(corpus))
         if ctx.tier == "thorough":
             exh = exhaustive_specs(ctx, depth=int(os.environ.get("VERIF_C04_EXH_DEPTH", "12")), cap=30000)
             ctx.notes.append("bounded-exhaustive stream (plain promotion, <=3 trials, 3 workers, rung levels [1,2,3], "
@@ -847,7 +972,7 @@ def run(ctx, replay=None):
         ctx.h("searcher_data", spec.get("searcher_data", "rungs"))
         ctx.h("brackets", "%d%s" % (spec["brackets"], "/per_bracket" if spec["per_bracket"] else ""))
         ctx.h("mra/checkpointing", "%s/%s" % (spec["mra"], spec["checkpointing"]))
-        for k in ("resumes", "starts", "starts_with_paused", "pauses", "stops", "late", "errors", "nosugg", "ignored", "oracle_errors"):
+        for k in ("resumes", "starts", "starts_with_paused", "pauses", "stops", "late", "errors", "nosugg", "ignored", "oracle_errors", "pasha_index_errors", "pasha_reports", "pasha_noisy", "pasha_eps_changes"):
             ctx.h("events", k, st[k])
         ctx.h("events", "total", len(res["events"]))
         ctx.h("boundary_decisions", spec["type"], chk.boundary)
@@ -857,7 +982,11 @@ def run(ctx, replay=None):
             ctx.violation("property", "%s %s (mode=%s, brackets=%d): %s" % (
                 "HyperbandScheduler", spec["type"], spec["mode"], spec["brackets"], v["what"]),
                 case=dict(spec=spec, first_bad=v, events=res["events"][-12:]),
-                signature=dict(scheduler="HyperbandScheduler", type=spec["type"], check=v["check"]))
+                signature=v.get("signature") or dict(scheduler="HyperbandScheduler", type=spec["type"], check=v["check"]))
+        for what in chk.oracle_mismatch[:2]:
+            ctx.violation("correspondence", "PASHA oracle tie broken: " + what, case=dict(spec=spec), failing_input=False,
+                          broken="oracle tie: self.epsilon == np.percentile(noisy_cfg_distances, 90) with the distances the "
+                                 "model computes")
         terms.append(res["term"])
         meta.append(dict(spec=spec, impl_events=res["events"]))
         if st["malformed"] == 0 and st["oracle_errors"] == 0:
